@@ -19,8 +19,8 @@ ASSUMPTIONS = ["continuous random cores ('almost all' tensors)", "every mode siz
 
 @st.composite
 def cases(draw, tier):
-    d = draw(st.integers(2, 4 if tier == "quick" else 5))
-    rfam = draw(st.sampled_from(["uniform", "ragged"]))
+    d = draw(st.integers(2, 5))
+    rfam = draw(st.sampled_from(["uniform", "ragged", "ragged"]))
     rmax = draw(st.integers(1, 3))
     r = [1] + ([rmax] * (d - 1) if rfam == "uniform" else [draw(st.integers(1, rmax)) for _ in range(d - 1)]) + [1]
     rho = max(r)
@@ -64,6 +64,14 @@ def prop(case, ctx):
         return
     err = fro(dense(Y) - F)
     ctx.check(err <= 1e-7 * nrm, "svd_incomplete did not recover the low-rank tensor", rel_err=err / nrm, ranks=oracle.ranks_of(Y), cond_unfold=cond)
+    # a caller may retry with another cap on the SAME sample arrays: they must still hold the samples and give the same tensor
+    ctx.check(np.array_equal(y, F[tuple(I.T)]), "svd_incomplete modified the sample values it was given")
+    cap2 = rho + (case["cap"] - rho + 1) % 3
+    Y2 = ctx.lib(teneva.svd_incomplete, I, y, idx, idx_many, 1e-10 * max(nrm, 1e-300) / np.sqrt(F.size), cap2)
+    ctx.check(oracle.wellformed(Y2, n) is None and max(oracle.ranks_of(Y2)) <= cap2, "svd_incomplete (second call, other cap): malformed or rank above the cap",
+              ranks=oracle.ranks_of(Y2), cap=cap2)
+    err2 = fro(dense(Y2) - F)
+    ctx.check(err2 <= 1e-7 * nrm, "svd_incomplete (second call on the same sample arrays) did not recover the tensor", rel_err=err2 / nrm, cap=cap2)
 
 
 SUBCHECKS = [Sub("recover", prop, strategy=cases, quick=1000, thorough=8000)]
